@@ -55,6 +55,10 @@ class Provenance:
             return SCALAR
         if isinstance(t, (list, tuple)):
             return self.combine([self.of(x) for x in t])
+        if type(t).__name__ == "MapList":  # [body for elem in <sequence of unknown length>]: every element is `body`
+            return self.of(t.body)
+        if type(t).__name__ == "SymList":
+            return self.of(t.elem)
         if isinstance(t, Sym):
             if t in self.carried:
                 return self.carried[t]
@@ -64,6 +68,9 @@ class Provenance:
         if not isinstance(t, Op):
             return None
         op, a, kw = t.op, t.args, t.kwd()
+        if op in ("item", "tolist"):
+            self.blame(t, f".{op}() leaves the tensor world: the value continues as a Python number")
+            return SCALAR
         if op in FACTORIES or op in ("sample", "draw"):
             return self.factory(t)
         if op in LIKE:
